@@ -74,4 +74,6 @@ def run(c, prog):
     from . import C14_rest, C14_arm
     C14_rest.run(c, prog)
     C14_arm.run(c, prog)
+    from . import C01_rot
+    C01_rot.run(core.Alias(c, "C14"), prog)     # the CFrame attribute shares the 24 rotation ids
     c.not_decided += ["round trip for every payload (a run)", "String::from_utf8 (std)"]
